@@ -478,6 +478,10 @@ SCRIPTED = [
      {"si_main.f90": "module si_main\n implicit none\n include 'si_inc.f90'\ncontains\n subroutine s()\n  k_from_inc = 1\n end subroutine s\nend module si_main\n",
       "si_inc.f90": "integer :: k_from_inc\n"},
      [("open", "si_main.f90"), ("open", "si_inc.f90"), ("query", "si_main.f90"), ("full", "si_inc.f90", "! nothing left\n"), ("save", "si_inc.f90")]),
+    ("a single-line edit discarded by closing the document, which is then opened and saved again",
+     {"sh.f90": "module sh\n implicit none\n integer :: hits\nend module sh\n",
+      "sv.f90": "program sv\n use sh\n implicit none\n hits = 1\nend program sv\n"},
+     [("open", "sh.f90"), ("open", "sv.f90"), ("query", "sv.f90"), ("ins", "sh.f90", 2, 15, "_total"), ("close", "sh.f90"), ("open", "sh.f90"), ("save", "sh.f90")]),
     ("the parent module of a submodule is deleted",
      {"sq_par.f90": "module sq_par\n implicit none\n integer :: pvar\n interface\n  module subroutine foo()\n  end subroutine foo\n end interface\nend module sq_par\n",
       "sq_sub.f90": "submodule (sq_par) sq_sub\ncontains\n module subroutine foo()\n  pvar = 1\n end subroutine foo\nend submodule sq_sub\n"},
@@ -522,6 +526,10 @@ def run_scripted(ctx):
                 elif st[0] == "write":
                     with open(path, "w") as f:
                         f.write(st[2])
+                elif st[0] == "close":
+                    impl.did_close(srv, path); buf.pop(n, None)       # unsaved edits are discarded: the disk text counts again
+                    with open(path) as f:
+                        files = dict(files); files[n] = f.read()
                 elif st[0] == "delete":
                     os.unlink(path); impl.did_close(srv, path); buf.pop(n, None)
             names = sorted(n for n in files if os.path.exists(os.path.join(root, n)))
